@@ -144,5 +144,5 @@ def jobs(tier):
     js = []
     for sc in ('after_dense_bidir', 'before_dense_bidir', 'after_blocked', 'with_twin') + (('between',) if tier != 'quick' else ()):
         js.append(dict(name=f'H16:independence:{sc}', fn='h_independence', params=dict(scenario=sc), cost=500, witness_every=2,
-                       budget_s=170 if tier == 'quick' else 1800, opts=dict(query_timeout_ms=3000, branch_timeout_ms=1500, rf_budget=(400, 4000), witness_timeout_ms=5000)))
+                       budget_s=170 if tier == 'quick' else 700, opts=dict(query_timeout_ms=3000, branch_timeout_ms=1500, rf_budget=(400, 4000), witness_timeout_ms=5000)))
     return js
